@@ -14,6 +14,8 @@ use clvmr::error::EvalErr;
 use clvmr::more_ops::op_unknown;
 use clvmr::reduction::{Reduction, Response};
 use clvmr::run_program::{run_program, verif_hook};
+#[cfg(feature = "diag")]
+use clvmr::run_program::run_program_with_pre_eval;
 use clvmr::runtime_dialect::RuntimeDialect;
 use serde_json::{json, Value};
 use std::cell::RefCell;
@@ -150,6 +152,28 @@ fn runtime_dialect(fl: u32) -> RuntimeDialect {
     RuntimeDialect::new(m, vec![1], vec![2], flags(fl))
 }
 
+/// the entry point under test: in the `diag` build (features counters + pre-eval) the run goes through
+/// run_program_with_pre_eval with an observe-only callback
+#[cfg(not(feature = "diag"))]
+fn run_entry<D: Dialect>(a: &mut Allocator, d: &D, p: NodePtr, e: NodePtr, budget: Cost) -> Response {
+    run_program(a, d, p, e, budget)
+}
+
+#[cfg(feature = "diag")]
+fn run_entry<D: Dialect>(a: &mut Allocator, d: &D, p: NodePtr, e: NodePtr, budget: Cost) -> Response {
+    let seen = Rc::new(RefCell::new(0u64));
+    let s2 = seen.clone();
+    let pre: clvmr::run_program::PreEval = Box::new(move |_a: &mut Allocator, _p: NodePtr, _e: NodePtr| {
+        *s2.borrow_mut() += 1;
+        let s3 = s2.clone();
+        let post: Box<clvmr::run_program::PostEval> = Box::new(move |_a: &mut Allocator, _r: Option<NodePtr>| {
+            *s3.borrow_mut() += 1;
+        });
+        Ok(Some(post))
+    });
+    run_program_with_pre_eval(a, d, p, e, budget, Some(pre))
+}
+
 // ---------------------------------------------------------------------------
 // one recorded run
 
@@ -240,6 +264,7 @@ fn run_one(out: &mut Out, case: u64, prog: &Value, env: &Value, cfg: &Cfg, line_
     let ev2 = events.clone();
     let mx2 = maxes.clone();
     let res = catch(move || {
+        let mx2 = mx2;
         let mut a = match cfg2.heap_limit {
             Some(h) => Allocator::new_limited(h),
             None => Allocator::new(),
@@ -300,19 +325,19 @@ fn run_one(out: &mut Out, case: u64, prog: &Value, env: &Value, cfg: &Cfg, line_
             "chia" => {
                 let d = ChiaDialect::new(fl);
                 let w = Witness { inner: &d, log: RefCell::new(vec![]), unaware: false };
-                let r = run_program(&mut a, &w, p, e, cfg2.budget);
+                let r = run_entry(&mut a, &w, p, e, cfg2.budget);
                 (r, w.log.into_inner())
             }
             "unaware" => {
                 let d = Unaware { inner: ChiaDialect::new(fl) };
                 let w = Witness { inner: &d, log: RefCell::new(vec![]), unaware: true };
-                let r = run_program(&mut a, &w, p, e, cfg2.budget);
+                let r = run_entry(&mut a, &w, p, e, cfg2.budget);
                 (r, w.log.into_inner())
             }
             _ => {
                 let d = runtime_dialect(cfg2.flags);
                 let w = RuntimeWitness { inner: &d, log: RefCell::new(vec![]) };
-                let r = run_program(&mut a, &w, p, e, cfg2.budget);
+                let r = run_entry(&mut a, &w, p, e, cfg2.budget);
                 (r, w.log.into_inner())
             }
         };
@@ -324,6 +349,14 @@ fn run_one(out: &mut Out, case: u64, prog: &Value, env: &Value, cfg: &Cfg, line_
         end["atoms"] = json!(a.atom_count());
         end["pairs"] = json!(a.pair_count());
         end["heap"] = json!(a.heap_size());
+        {
+            // the sampled maxima include the final counters, so that they do not depend on how many
+            // loop iterations a build needs (the pre-eval feature adds PostEval operations)
+            let mut m = mx2.borrow_mut();
+            m.0 = m.0.max(a.atom_count());
+            m.1 = m.1.max(a.pair_count());
+            m.2 = m.2.max(a.heap_size());
+        }
         json!({"al": al, "wit": wit, "end": end})
     });
     verif_hook::set_observer(None);
@@ -538,6 +571,60 @@ impl PG<'_> {
             t = json!({"f": items[0].clone(), "r": atom_json(&[5])});
         }
         t
+    }
+
+    /// programs aimed at the fast paths (C05): all-small add/sub at the u64/i64 edges, (sha256 1 n),
+    /// small >, inline path lookups at bit 7/15/23, multiply with mixed representations
+    fn fast_expr(&mut self, depth: u32) -> Value {
+        let big = |r: &mut Rng| -> Value {
+            // 26-bit values (inline) near the top, so sums overflow u64/i64 only with many terms; plus 8-byte edge values
+            match r.below(6) {
+                0 => int_atom(0x3ff_ffff - r.range(0, 2)),
+                1 => int_atom(r.range(0, 300)),
+                2 => atom_json(&[0x7f, 0xff, 0xff, 0xff, 0xff, 0xff, 0xff, 0xff - r.below(2) as u8]),
+                3 => atom_json(&[0x00, 0xff, 0xff, 0xff, 0xff, 0xff, 0xff, 0xff, 0xff - r.below(2) as u8]),
+                4 => int_atom(-(r.range(0, 300))),
+                _ => int_atom(r.range(0, 0x3ff_ffff)),
+            }
+        };
+        match self.r.below(8) {
+            0 | 1 => {
+                let op = *self.r.pick(&[16u8, 17]);
+                let n = 1 + self.r.below(6) as usize;
+                let mut items = vec![atom_json(&[op])];
+                for _ in 0..n {
+                    let v = big(self.r);
+                    items.push(if depth > 0 && self.r.chance(1, 5) { self.fast_expr(depth - 1) } else { q(v) });
+                }
+                list_json(&items)
+            }
+            2 => {
+                let n = self.r.range(0, 40);
+                list_json(&[atom_json(&[11]), q(int_atom(1)), q(if self.r.chance(1, 6) { atom_json(&[0, n as u8]) } else { int_atom(n) })])
+            }
+            3 => list_json(&[atom_json(&[21]), q(big(self.r)), q(big(self.r))]),
+            4 => {
+                // path lookups with 7 / 15 / 23 steps: environment must be deep; also leading-zero paths
+                let bits = *self.r.pick(&[6u32, 7, 8, 14, 15, 16, 22, 23, 24]);
+                let v: u32 = (1 << bits) | (self.r.next() as u32 & ((1 << bits) - 1) & 0x0101_0101);
+                let b = v.to_be_bytes();
+                let skip = b.iter().take_while(|x| **x == 0).count();
+                let mut p = b[skip..].to_vec();
+                if p[0] & 0x80 != 0 || self.r.chance(1, 6) {
+                    p.insert(0, 0);
+                }
+                atom_json(&p)
+            }
+            5 => {
+                let n = 2 + self.r.below(3) as usize;
+                let mut items = vec![atom_json(&[18])];
+                for _ in 0..n {
+                    items.push(q(big(self.r)));
+                }
+                list_json(&items)
+            }
+            _ => self.expr(depth.min(2)),
+        }
     }
 
     fn crypto_expr(&mut self) -> Value {
@@ -826,13 +913,21 @@ fn main() {
                 let mut pg = PG { r: &mut r, newer: !classic_only, guards: true, crypto: !classic_only && profile != "C08x", unknown: true };
                 let depth = 1 + pg.r.below(4) as u32;
                 let p = match profile.as_str() {
+                    "C05" => pg.fast_expr(depth),
                     "C31" | "C08" => {
                         let g = pg.guard(depth);
                         if pg.r.chance(1, 2) { list_json(&[atom_json(&[4]), g, pg.expr(1)]) } else { g }
                     }
                     _ => pg.expr(depth),
                 };
-                let e = if pg.r.chance(1, 3) { rand_tree(pg.r, 12, 8, 20) } else { list_json(&[pg.value(), pg.value(), pg.value()]) };
+                let e = if profile == "C05" && pg.r.chance(1, 2) {
+                    // a right-deep and left-deep environment so long paths resolve
+                    let mut t = atom_json(&[0x2a]);
+                    for i in 0..26 {
+                        t = if i % 2 == 0 { json!({"f": atom_json(&[i as u8 + 1]), "r": t}) } else { json!({"f": t, "r": atom_json(&[i as u8 + 1])}) };
+                    }
+                    t
+                } else if pg.r.chance(1, 3) { rand_tree(pg.r, 12, 8, 20) } else { list_json(&[pg.value(), pg.value(), pg.value()]) };
                 (p, e)
             }
         };
@@ -935,7 +1030,12 @@ fn main() {
             "C30" => {
                 let f = base_flags & !(0x0020 | 0x0200);
                 run_one(&mut out, case, &prog, &env, &Cfg::new("chia", "chia", f, 0), &mut line);
-                run_one(&mut out, case, &prog, &env, &Cfg::new("runtime", "runtime", f, 0).rel("eq_outcome", "chia"), &mut line);
+                run_one(&mut out, case, &prog, &env, &Cfg::new("runtime", "runtime", f, 0).rel("eq_outcome_c30", "chia"), &mut line);
+            }
+            // C05: build variants (the same trace is recorded by each build and compared line by line)
+            "C05" => {
+                let budget = if r.chance(1, 4) { 1 + r.below(30000) } else { 0 };
+                run_one(&mut out, case, &prog, &env, &Cfg::new("base", "chia", base_flags, budget), &mut line);
             }
             // C31: guards (hook events), LIMIT_SOFTFORK depth
             "C31" => {
